@@ -125,13 +125,20 @@ namespace Givaro
         { return x = 0; }
         template<typename T> Element& init(Element& r, const T& a) const
         {
-            reduce(r, Caster<Element>((a < 0)? -a : a));
+            // negate integral sources in 64 bits: -a overflows in int for INT32_MIN
+            typedef typename std::conditional<std::is_integral<T>::value && std::is_signed<T>::value, int64_t, T>::type Wide;
+            reduce(r, Caster<Element>((a < 0)? -Wide(a) : Wide(a)));
             if (a < 0) negin(r);
             return to_mg(r);
         }
+        // floating sources need not fit a 64-bit word: reduce them exactly as Integers
+        Element& init(Element& r, const double a) const { return init(r, Integer(a)); }
+        Element& init(Element& r, const float a) const { return init(r, Integer(static_cast<double>(a))); }
         Element& init(Element& r, const Integer& a) const
         {
-            reduce(r, Caster<Element>((a < 0)? -a : a));
+            // reduce as an Integer first: Caster<Element> keeps only the low 2^K bits
+            Integer ip; Caster(ip, _p);
+            reduce(r, Caster<Element>(((a < 0)? -a : a) % ip));
             if (a < 0) negin(r);
             return to_mg(r);
         }
